@@ -1,9 +1,15 @@
 (** C02 - assemble and parse are exact inverses on grammar-conforming
-    instructions.  (Stage A: obligations on the translated data; the
-    unbounded round-trip theorem is being added in Proofs/Codec.v.) *)
+    instructions.  Statements only; proofs are [exact] of lemmas of
+    Proofs/CodecFacts.v and Inst/Linked.v.  [conforms G t i] (Spec/Conforms.v)
+    is the grammar-conformance relation written from the grammar's point of view
+    (no decoder involved); G is the grammar data translated from the source on
+    this run and proved equal to the reference snapshot.  The round trip holds
+    for EVERY conforming instruction: any opcode, any operand count, any
+    string length, any nesting of OpSpecConstantOp. *)
 From RV Require Import Model.Base Model.Spirv Model.Grammar Model.Inst Model.Parser Model.Link.
 From RV Require Import Gen.SpirvData Gen.TableData Gen.ParseData Inst.Linked.
 From RV Require Gen.RefParams Gen.RefTable Gen.RefSpirv.
+From RV Require Import Model.Bytes Model.Decoder Spec.Conforms Proofs.CodecFacts.
 
 (** every Operand variant is assembled in the encoding class the SPIR-V
     specification prescribes for it (masks: bits, enumerants: numeric value,
@@ -29,5 +35,59 @@ Theorem C02_grammar_is_reference :
    ss_list_eqb operand_variants RefParams.operand_variants = true).
 Proof. exact (conj layout_matches_ref (conj values_match_ref params_match_ref)). Qed.
 
+(** the translated grammar data satisfies the boolean well-formedness the codec proofs need *)
+Theorem C02_grammar_wellformed : wf_gdata G = true.
+Proof. exact wf_gdata_linked. Qed.
+
+(** first word = word count << 16 | opcode, and the count is the number of words emitted *)
+Theorem C02_first_word :
+  forall t i, conforms G t i = true ->
+  asm_inst i = (N.of_nat (length (asm_inst i)) * 65536 + i_opcode i) :: asm_body i /\
+  N.of_nat (length (asm_inst i)) < 65536 /\ i_opcode i < 65536 /\
+  (hd 0 (asm_inst i) / 65536) mod 65536 = N.of_nat (length (asm_inst i)) /\
+  hd 0 (asm_inst i) mod 65536 = i_opcode i.
+Proof. exact (asm_first_word G). Qed.
+
+(** then result type, result id and operands in order, each in the prescribed encoding *)
+Theorem C02_body_layout :
+  forall i, asm_body i = oword (i_rtype i) ++ oword (i_rid i) ++ flat_map asm_operand (i_ops i).
+Proof. exact (fun i => eq_refl). Qed.
+
+Theorem C02_operand_encodings :
+  (forall k v, asm_operand (OEnum k v) = [v]) /\ (forall v, asm_operand (OIdRef v) = [v]) /\
+  (forall v, asm_operand (OLit32 v) = [v]) /\
+  (forall v, asm_operand (OLit64 v) = [v mod w32; (v / w32) mod w32]) /\
+  (forall s, asm_operand (OStr s) = chunks s).
+Proof. exact (conj (fun k v => eq_refl) (conj (fun v => eq_refl) (conj (fun v => eq_refl) (conj (fun v => eq_refl) (fun s => eq_refl))))). Qed.
+
+(** parsing the emitted words delivers an instruction equal to the original,
+    operand for operand, consuming exactly those words (any following bytes r
+    untouched, any tracker state t under which the instruction conforms) *)
+Theorem C02_parse_after_assemble :
+  forall t i, conforms G t i = true ->
+  forall r o idx,
+    parse_inst G t idx {| rest := bytes_of_words (asm_inst i) ++ r; off := o; lim := None |}
+    = Ok (i, {| rest := r; off := o + 4 * N.of_nat (length (asm_inst i)); lim := None |}).
+Proof. exact (fun t i => roundtrip G t i wf_gdata_linked). Qed.
+
+(** conversely everything the parser accepts conforms, and re-assembling it parses back to itself *)
+Theorem C02_parsed_conforms :
+  forall t idx d i d1, Forall byte (rest d) -> parse_inst G t idx d = Ok (i, d1) -> conforms G t i = true.
+Proof. exact (fun t idx d i d1 => parse_sound G t idx d i d1 wf_gdata_linked). Qed.
+
+Theorem C02_assemble_after_parse :
+  forall t idx d i d1, Forall byte (rest d) -> parse_inst G t idx d = Ok (i, d1) ->
+  forall r o idx',
+    parse_inst G t idx' {| rest := bytes_of_words (asm_inst i) ++ r; off := o; lim := None |}
+    = Ok (i, {| rest := r; off := o + 4 * N.of_nat (length (asm_inst i)); lim := None |}).
+Proof. exact (fun t idx d i d1 => parse_asm_parse G t idx d i d1 wf_gdata_linked). Qed.
+
 Print Assumptions C02_tables_link.
 Print Assumptions C02_grammar_is_reference.
+Print Assumptions C02_grammar_wellformed.
+Print Assumptions C02_first_word.
+Print Assumptions C02_body_layout.
+Print Assumptions C02_operand_encodings.
+Print Assumptions C02_parse_after_assemble.
+Print Assumptions C02_parsed_conforms.
+Print Assumptions C02_assemble_after_parse.
